@@ -444,9 +444,11 @@ def lineNumbers (p : Prefs) (text : Cps) : Except Err Cps :=
       rep (pad - d.length) [32] ++ d ++ [58, 32] ++ l.1))
   else pure text
 
-/-- the text that `do_CSSStyleSheet` encodes -/
-def doSheet (p : Prefs) (sl : Nat) (s : Sheet) : Except Err Cps :=
-  match doRules p 0 sl (s.rules.filter fun r => !nsDropped p s.usedUris r) with
+/-- the text that `do_CSSStyleSheet` encodes. `sl` is the `_selectorlevel` the serializer object was left with:
+since 56f3433 the sheet is serialized from level 0 (`self._selectors, self._selectorlevel = [], 0`, restored in a
+`finally`), so it is not read — with `indentSpecificities` off the level stays 0 for all rules of the sheet. -/
+def doSheet (p : Prefs) (_sl : Nat) (s : Sheet) : Except Err Cps :=
+  match doRules p 0 0 (s.rules.filter fun r => !nsDropped p s.usedUris r) with
   | .error e => .error e
   | .ok texts => lineNumbers p (joinWith p.lineSeparator (texts.filter fun t => !t.isEmpty))
 
